@@ -47,7 +47,9 @@ func (r *Registry) Referrers(ctx context.Context, repoName string, digest ocireg
 	}
 	var referrers []ociregistry.Descriptor
 	for _, b := range repo.manifests {
-		if b.subject != digest {
+		if b.subject == "" || b.subject != digest {
+			// (A manifest without a subject refers to nothing,
+			// whatever digest we've been asked about.)
 			continue
 		}
 		// TODO filter by artifact type
